@@ -302,6 +302,11 @@ def oracle(case, res, hist):
             if not ever and not raced(i):
                 V.append(v("id-refused-though-free", "explicit",
                            f"makegateway(id={want}) refused although no gateway ever held that id and no other call was in flight"))
+        if exc == "ValueError" and want is None:
+            # an automatic id can only be refused because an explicit id of the automatic form ('gwN') is in the way
+            if not any(w2 and w2.startswith("gw") and w2[2:].isdigit() and t1 < s2 for (t1, t2, w2, g2, e2) in mk):
+                V.append(v("auto-id-refused", "auto", "makegateway without id refused although no explicit id of the "
+                                                      "form gwN was ever requested"))
         if exc is not None and exc != "ValueError":
             how = "concurrent-same-id" if raced(i) else "sequential"
             any_raced_failure = any_raced_failure or how == "concurrent-same-id"
